@@ -87,6 +87,20 @@ def handleGen (op : String) (j : Json) : Except String Json := do
     let xs ← (← getArr j "xs").mapM fun x => do match x.getStr? with | .ok t => (getRat (Json.mkObj [("v", Json.str t)]) "v") | .error e => throw e
     let bl := fun (t : List (Rat × Rat)) (y : Rat) => ((Atsim.bisectLeft t y : Nat) : Int)
     return arrJ (xs.map fun x => arrJ [match find_index bl rows x with | some i => intJ i | none => Json.null, ratJ (get_value bl rows x)])
+  -- destination mode: how many `write` calls reach the destination (the `_writes` twins)
+  | "writes_lammps" =>
+    return natJ (lammps_write_potentials_writes (← parsePotRecs j) (← getRat j "minr") (← getRat j "maxr") (← getInt j "n") []).length
+  | "writes_dlpoly" =>
+    return natJ (dlpoly_write_potentials_writes (← parsePotRecs j) (← getRat j "cut") (← getInt j "n") []).length
+  | "writes_gulp" =>
+    return natJ (gulp_write_writes { nr := ← getInt j "n", cutoff := ← getRat j "cut", potentials := ← parsePotRecs j } []).length
+  | "writes_setfl" =>
+    let w := if (← getBool j "fs") then setfl_write_fs_writes else setfl_write_alloy_writes
+    return natJ (w (← getInt j "nrho") (← getRat j "drho") (← getInt j "nr") (← getRat j "dr") (← parseEamRecs j) (← parsePotRecs j) [] (← getStrs j "comments") ((getRat j "cutoff").toOption)).length
+  | "writes_tabeam" =>
+    return natJ (tabeam_write_writes (← getInt j "nrho") (← getRat j "drho") (← getInt j "nr") (← getRat j "dr") (← parseEamRecs j) (← parsePotRecs j) [] (← getStr j "title")).length
+  | "writes_tabeam_fs" =>
+    return natJ (tabeam_write_fs_writes (← getInt j "nrho") (← getRat j "drho") (← getInt j "nr") (← getRat j "dr") (← parseEamRecs j) (← parsePotRecs j) [] (← getStr j "title")).length
   | "lammps" =>
     let r := lammps_write_potentials (← parsePotRecs j) (← getRat j "minr") (← getRat j "maxr") (← getInt j "n") []
     return arrJ (r.map tokJ)
